@@ -278,7 +278,7 @@ func (t *T0x0200AdditionExtension0x70) Parse(id uint8, content []byte) (Addition
 		t.AlarmTimeThreshold = binary.BigEndian.Uint16(content[6:8])
 		t.AlarmThreshold1 = binary.BigEndian.Uint16(content[8:10])
 		t.AlarmThreshold2 = binary.BigEndian.Uint16(content[10:12])
-		t.T0x0200ExtensionSBBase.parse(content[12:48])
+		t.T0x0200ExtensionSBBase.parse(content[12:47])
 		return AdditionContent{
 			Data:        content,
 			CustomValue: t,
